@@ -70,6 +70,11 @@ POOL: list[tuple[str, str, Any]] = [
     ('l = rf"""\\N{b}"""\n', "exec", None),
     ("[a = 1]\n", "exec", None),
     ("s = 'é'; $X = ${'ü'} + $(ls é)\n", "exec", None),  # nodes built by shared helpers, on a line whose columns get converted
+    # literals that compare equal across types (1000 == 1000.0 == 1e3 == (1000+0j), 'a' vs b'a', True == 1): a table of
+    # literal values keyed by value would hand the first one's object to the others
+    ("i = 1000; t = (True, 2500)\n", "exec", None),
+    ("f = 1000.0; g = 1e3; h = 2500.0; one = 1.0\n", "exec", None),
+    ("c = 1000j + 1000; k = 0x3e8; s = '1000'; b = b'1000'\n", "exec", None),
 ]
 N_FIXED = len(POOL)  # entries after this index take part in histories only (not in thread pairs)
 # parse_file on ONE path whose content changes between the calls (two threads writing one file would be the harness's own race)
